@@ -400,7 +400,7 @@ JANET_CORE_FN(cfun_debug_stacktrace,
     Janet x = argc == 1 ? janet_wrap_nil() : argv[1];
     const char *prefix = janet_optcstring(argv, argc, 2, NULL);
     janet_stacktrace_ext(fiber, x, prefix);
-    return argv[0];
+    return janet_wrap_fiber(fiber);
 }
 
 JANET_CORE_FN(cfun_debug_argstack,
